@@ -1322,6 +1322,16 @@ async def _(mpc):
     return out
 
 
+@case('C37', 'a ** 254 for a 0D secure array over GF(11) and GF(2^8), 3 parties', 'dd77350', cfg=(3, 1, False), numpy=True, expected=[True, True])
+async def _(mpc):
+    out = []
+    for S in (mpc.SecFld(11), mpc.SecFld(2 ** 8)):
+        a = S.array(np.array(3))
+        r = await mpc.output(a ** 254)
+        out.append(bool(np.all(r == S.field.array(np.array(3)) ** 254)))
+    return out
+
+
 # ---------------------------------------------------------------------------------------------------- driver
 def _close(a, b, tol):
     if isinstance(a, (list, tuple)) and isinstance(b, (list, tuple)):
